@@ -59,6 +59,12 @@ def _worker(job):
                 rt = harness.run(twin, L, budget_s=min(60, job['budget_s']), page=P.get('page', 1), batch=P.get('batch', 1), replay=False)
                 out['twin'] = rt.status
             return dict(job=job, **out)
+        elif kind == 'E2':
+            from symdc import ch_driver
+            mod.EXCLUDE = list(job.get('exclude', []))
+            out = ch_driver.run_job(job)
+            out.setdefault('wall', time.time() - t0)
+            return dict(job=job, **out)
         else:
             fn = getattr(mod, job['func'])
             out = fn(job)
@@ -100,6 +106,10 @@ def witness_replay(job):
             vals = {k: (Fraction(v) if isinstance(v, str) else v) for k, v in job['values'].items()}
             r = harness.replay_real(ob, L, vals, P.get('page', 1), P.get('batch', 1))
             return dict(reproduced=r.get('reproduced', False), failed=r.get('failed', []), error=r.get('error'))
+        if job['engine'] == 'E2':
+            from symdc import ch_driver
+            mod.EXCLUDE = []
+            return ch_driver.witness(job)
         fn = getattr(mod, job['witness_func'])
         return fn(job)
     except BaseException as e:
